@@ -418,7 +418,8 @@ def run_tests(options, tests, name, failures, errors, skipped, import_errors):
         output.stop_tests()
         failures.extend(result.failures)
         n_failures = len(result.failures)
-        failures.extend(result.unexpectedSuccesses)
+        failures.extend(
+            (test, None) for test in result.unexpectedSuccesses)
         n_failures += len(result.unexpectedSuccesses)
         skipped.extend(result.skipped)
         errors.extend(result.errors)
